@@ -26,6 +26,7 @@ op3 == hist[3]
 Init == heap = <<>> /\ hist = <<>>
 
 NeedsJointQ == Ops \subseteq {"int_log_cond"}
+POff == IF \A s \in Offs : s >= 10 THEN 11 ELSE 1     \* anisotropic sessions (offsets >= 10) also get a badly scaled p
 
 Op ==
     LET c == heap[1] p == heap[2] IN
@@ -68,7 +69,7 @@ Next ==
     \/ n = 1 /\ \E rr \in RPairs, pk \in {"PDF:S", "PDF:SLD", "DiagPDF:S"} :
                    /\ rr \div 10 = CR(c1)
                    /\ ANewPdf(IF pk = "DiagPDF:S" THEN "DiagPDF" ELSE "PDF", IF pk = "PDF:SLD" THEN "SLD" ELSE "S",
-                              IF NeedsJointQ THEN CDx(c1) + CDy(c1) ELSE CDx(c1), rr % 10, 1)
+                              IF NeedsJointQ THEN CDx(c1) + CDy(c1) ELSE CDx(c1), rr % 10, POff)
     \/ n = 2 /\ Op
     \/ n = 3 /\ F4
     \/ n = 4 /\ F5
